@@ -15,7 +15,8 @@ type placeCfg struct {
 	copyOpts  []copyOpt
 	extras    [][]int64 // extra head per shard, alternatives
 	disc0     []bool    // target 0 discovered?
-	lastClass []int     // health class of the last shard
+	lastClass []int     // health class of one shard (the last one, or the first one when firstToo)
+	firstToo  bool      // additionally enumerate the class on the FIRST shard (last shard in sync)
 	heads     []int64
 	idles     []int64
 	newTgt    []int // 0 none, 1 small new target, 2 big new target
@@ -31,8 +32,15 @@ func placeGen(p placeCfg) func(emit func(*h1.Scenario)) {
 			dims = append(dims, len(p.copyOpts))
 		}
 		base := len(dims)
-		dims = append(dims, len(p.extras), len(p.disc0), len(p.lastClass), len(p.heads), len(p.idles), len(p.newTgt), len(p.postFail), len(p.noRelieve))
+		npos := 1
+		if p.firstToo {
+			npos = 2
+		}
+		dims = append(dims, len(p.extras), len(p.disc0), len(p.lastClass), len(p.heads), len(p.idles), len(p.newTgt), len(p.postFail), len(p.noRelieve), npos)
 		product(dims, func(ix []int) {
+			if ix[base+8] == 1 && p.lastClass[ix[base+2]] == shInSync {
+				return // same scenario as position "last"
+			}
 			opt := h1.Opt{MaxHead: p.heads[ix[base+3]], MaxProc: 100, MaxShard: 99, MinShard: 0, IdleSec: p.idles[ix[base+4]], NoRelieve: p.noRelieve[ix[base+7]]}
 			b := newB(opt, p.nShards)
 			for t := 0; t < nT; t++ {
@@ -51,7 +59,11 @@ func placeGen(p placeCfg) func(emit func(*h1.Scenario)) {
 				}
 				b.ExtraHead(s, p.extras[ix[base]][s])
 			}
-			b.Class(p.nShards-1, p.lastClass[ix[base+2]])
+			if ix[base+8] == 1 {
+				b.Class(0, p.lastClass[ix[base+2]])
+			} else {
+				b.Class(p.nShards-1, p.lastClass[ix[base+2]])
+			}
 			switch p.newTgt[ix[base+5]] {
 			case 1:
 				b.Target(9, 10, 10, true, "up")
@@ -70,29 +82,30 @@ func placeGen(p placeCfg) func(emit func(*h1.Scenario)) {
 func c01Cfgs(c *chk.Ctx) []placeCfg {
 	quick := []placeCfg{
 		{ // two shards, two targets
-			nShards:  2,
-			sizes:    [][2]int64{{40, 40}, {10, 10}},
-			copyOpts: []copyOpt{coAbsent, coN5, coN2, coN0u, coT5, coT2},
-			extras:   [][]int64{{0, 0}, {75, 0}, {0, 75}},
-			disc0:    []bool{true, false},
+			nShards:   2,
+			sizes:     [][2]int64{{40, 40}, {10, 10}},
+			copyOpts:  []copyOpt{coAbsent, coN5, coN2, coN0u, coT5, coT2},
+			extras:    [][]int64{{0, 0}, {75, 0}, {0, 75}},
+			disc0:     []bool{true, false},
 			lastClass: []int{shInSync, shNotReady, shHashAcceptStill},
-			heads:    []int64{0, 100},
-			idles:    []int64{0, 3600},
-			newTgt:   []int{0, 1},
-			postFail: []int{-1},
+			heads:     []int64{0, 100},
+			idles:     []int64{0, 3600},
+			newTgt:    []int{0, 1},
+			postFail:  []int{-1},
 			noRelieve: []bool{false},
 		},
 		{ // three shards, one target
-			nShards:  3,
-			sizes:    [][2]int64{{40, 40}},
-			copyOpts: []copyOpt{coAbsent, coN5, coN2, coN0u, coT5, coT2, coN5d, coT0u},
-			extras:   [][]int64{{0, 0, 0}, {75, 0, 0}, {0, 75, 0}, {75, 75, 0}},
-			disc0:    []bool{true, false},
+			nShards:   3,
+			sizes:     [][2]int64{{40, 40}},
+			copyOpts:  []copyOpt{coAbsent, coN5, coN2, coN0u, coT5, coT2, coN5d, coT0u},
+			extras:    [][]int64{{0, 0, 0}, {75, 0, 0}, {0, 75, 0}, {75, 75, 0}},
+			disc0:     []bool{true, false},
 			lastClass: []int{shInSync, shNotReady, shStatusFail, shHashAcceptStill},
-			heads:    []int64{0, 100},
-			idles:    []int64{0, 3600},
-			newTgt:   []int{0, 1},
-			postFail: []int{-1, 0},
+			firstToo:  true,
+			heads:     []int64{0, 100},
+			idles:     []int64{0, 3600},
+			newTgt:    []int{0, 1},
+			postFail:  []int{-1, 0},
 			noRelieve: []bool{false},
 		},
 	}
@@ -101,42 +114,44 @@ func c01Cfgs(c *chk.Ctx) []placeCfg {
 	}
 	return []placeCfg{
 		{
-			nShards:  2,
-			sizes:    [][2]int64{{40, 40}, {10, 60}},
-			copyOpts: []copyOpt{coAbsent, coN5, coN3, coN2, coN0u, coT5, coT3, coT2, coN5d, coT0u},
-			extras:   [][]int64{{0, 0}, {75, 0}, {0, 75}, {130, 0}},
-			disc0:    []bool{true, false},
+			nShards:   2,
+			sizes:     [][2]int64{{40, 40}, {10, 60}},
+			copyOpts:  []copyOpt{coAbsent, coN5, coN3, coN2, coN0u, coT5, coT3, coT2, coN5d, coT0u},
+			extras:    [][]int64{{0, 0}, {75, 0}, {0, 75}, {130, 0}},
+			disc0:     []bool{true, false},
 			lastClass: []int{shInSync, shNotReady, shStatusFail, shRuntimeFail, shHashAcceptStill, shHashAcceptEqual},
-			heads:    []int64{0, 100},
-			idles:    []int64{0, 3600},
-			newTgt:   []int{0, 1, 2},
-			postFail: []int{-1, 0},
+			firstToo:  true,
+			heads:     []int64{0, 100},
+			idles:     []int64{0, 3600},
+			newTgt:    []int{0, 1, 2},
+			postFail:  []int{-1, 0},
 			noRelieve: []bool{false, true},
 		},
 		{
-			nShards:  3,
-			sizes:    [][2]int64{{40, 40}},
-			copyOpts: []copyOpt{coAbsent, coN5, coN3, coN2, coN0u, coT5, coT3, coT2, coN5d, coT0u, coT5d},
-			extras:   [][]int64{{0, 0, 0}, {75, 0, 0}, {0, 75, 0}, {75, 75, 0}, {0, 0, 75}, {130, 0, 0}},
-			disc0:    []bool{true, false},
+			nShards:   3,
+			sizes:     [][2]int64{{40, 40}},
+			copyOpts:  []copyOpt{coAbsent, coN5, coN3, coN2, coN0u, coT5, coT3, coT2, coN5d, coT0u, coT5d},
+			extras:    [][]int64{{0, 0, 0}, {75, 0, 0}, {0, 75, 0}, {75, 75, 0}, {0, 0, 75}, {130, 0, 0}},
+			disc0:     []bool{true, false},
 			lastClass: []int{shInSync, shNotReady, shStatusFail, shRuntimeFail, shHashAcceptStill, shHashAcceptEqual, shHashReject},
-			heads:    []int64{0, 100},
-			idles:    []int64{0, 3600},
-			newTgt:   []int{0, 1, 2},
-			postFail: []int{-1, 0, 1},
+			firstToo:  true,
+			heads:     []int64{0, 100},
+			idles:     []int64{0, 3600},
+			newTgt:    []int{0, 1, 2},
+			postFail:  []int{-1, 0, 1},
 			noRelieve: []bool{false, true},
 		},
 		{
-			nShards:  3,
-			sizes:    [][2]int64{{40, 40}, {10, 10}},
-			copyOpts: []copyOpt{coAbsent, coN5, coN2, coT5},
-			extras:   [][]int64{{0, 0, 0}, {75, 0, 0}, {0, 0, 75}},
-			disc0:    []bool{true, false},
+			nShards:   3,
+			sizes:     [][2]int64{{40, 40}, {10, 10}},
+			copyOpts:  []copyOpt{coAbsent, coN5, coN2, coT5},
+			extras:    [][]int64{{0, 0, 0}, {75, 0, 0}, {0, 0, 75}},
+			disc0:     []bool{true, false},
 			lastClass: []int{shInSync, shNotReady},
-			heads:    []int64{0, 100},
-			idles:    []int64{0, 3600},
-			newTgt:   []int{0, 1},
-			postFail: []int{-1},
+			heads:     []int64{0, 100},
+			idles:     []int64{0, 3600},
+			newTgt:    []int{0, 1},
+			postFail:  []int{-1},
 			noRelieve: []bool{false},
 		},
 	}
